@@ -36,6 +36,17 @@ func init() {
 		New:       "			q, err := gojq.Parse(s)\n			i.includeCache[filename] = q\n			if err != nil {\n				p := queryErrorPosition(s, err)\n				return nil, compileError{\n					err:      err,\n					what:     \"parse\",\n					filename: absPath,",
 		ExpectKey: "|value"})
 
+	AddControl(Control{ID: "c18-cachefill-flag-wrong-polarity", Prop: "C18", Rule: "C18.cachefill", File: "pkg/interp/interp.go",
+		Old: "			if useCache {\n				i.includeCache[filename] = q", New: "			if !useCache {\n				i.includeCache[filename] = q",
+		ExpectKey: "success-only"})
+	AddControl(Control{ID: "c18-cachefill-flag-other-error", Prop: "C18", Rule: "C18.cachefill", File: "pkg/interp/interp.go",
+		Old:       "			f, absPath, err := pr.open(filenamePart)\n			// don't cache the empty module of a failed try include, a later\n			// non-try include of the same file should fail\n			useCache := err == nil\n",
+		New:       "			useCache := err == nil\n			f, absPath, err := pr.open(filenamePart)\n",
+		ExpectKey: "success-only"})
+	AddControl(Control{ID: "c18-cachefill-flag-untested", Prop: "C18", Rule: "C18.cachefill", File: "pkg/interp/interp.go",
+		Old: "			if useCache {\n				i.includeCache[filename] = q\n			}", New: "			_ = useCache\n			i.includeCache[filename] = q",
+		ExpectKey: "success-only"})
+
 	// ---- C18.globals: aliases of package-level memory
 	AddControl(Control{ID: "c18-global-commaok-alias", Prop: "C18", Rule: "C18.globals", File: "format/csv/csv.go",
 		Old: "func decodeCSV(d *decode.D) any {", New: "type csvStat struct{ n int }\n\nvar csvStats = map[string]*csvStat{\"rows\": {}}\n\nfunc decodeCSV(d *decode.D) any {\n	if s, ok := csvStats[\"rows\"]; ok {\n		s.n++\n	}",
